@@ -34,7 +34,11 @@ func (p *DecisionMakingParams) AllAlternatives() []AlternativeWithCriteria {
 	if toConsider == nil {
 		toConsider = make([]AlternativeWithCriteria, 0)
 	}
-	return append(toConsider, notConsider...)
+	// always a fresh slice: append(toConsider, ...) returns toConsider itself (or writes into its spare capacity)
+	// and callers overwrite elements of the result
+	all := make([]AlternativeWithCriteria, 0, len(toConsider)+len(notConsider))
+	all = append(all, toConsider...)
+	return append(all, notConsider...)
 }
 
 type RawMethodParameters = map[string]interface{}
